@@ -1858,7 +1858,25 @@ class _FormatInferInstance(Visitor):
         else:
             pos_bound = min(exact.pos_bound, scope_af.pos_bound)
             neg_bound = max(exact.neg_bound, scope_af.neg_bound)
-        overlap = AbstractFormat(prec, exp, pos_bound, neg_bound=neg_bound)
+        # Special values of the image: an infinity or NaN of *exact* survives
+        # the rounding where C has one, and a finite value past C's bound
+        # overflows to whatever C overflows to.  A negative value finer than
+        # C's quantum can round to ``-0.0``.
+        over_pos = exact.pos_bound > scope_af.pos_bound
+        over_neg = exact.neg_bound < scope_af.neg_bound
+        lost_inf = (
+            (exact.has_pos_inf and not scope_af.has_pos_inf)
+            or (exact.has_neg_inf and not scope_af.has_neg_inf)
+        )
+        overlap = AbstractFormat(
+            prec, exp, pos_bound, neg_bound=neg_bound,
+            has_pos_inf=scope_af.has_pos_inf and (exact.has_pos_inf or over_pos),
+            has_neg_inf=scope_af.has_neg_inf and (exact.has_neg_inf or over_neg),
+            has_nan=scope_af.has_nan and (exact.has_nan or over_pos or over_neg or lost_inf),
+            has_neg_zero=scope_af.has_neg_zero and (
+                exact.has_neg_zero or (exact.neg_bound < 0 and exact.exp < scope_af.exp)
+            ),
+        )
         return self._materialize_in_scope(overlap, scope_fmt)
 
     @staticmethod
@@ -1882,6 +1900,12 @@ class _FormatInferInstance(Visitor):
             zeros: set[SetValue] = {Fraction(0)}
             if cand.has_neg_zero:
                 zeros.add(NEG_ZERO)
+            if cand.has_pos_inf:
+                zeros.add(Special.POS_INF)
+            if cand.has_neg_inf:
+                zeros.add(Special.NEG_INF)
+            if cand.has_nan:
+                zeros.add(Special.NAN)
             return SetFormat(frozenset(zeros))
         mat = cand.format()
         if (isinstance(mat, AbstractableFormat)
